@@ -1,6 +1,6 @@
 SPECIFICATION Spec
 CONSTANTS
- BSize <- BS2
+ BSize <- BS2real
  Fence = 0
  Aligns = {1,4}
  Sizes = {2,5}
